@@ -30,6 +30,8 @@ pub struct NamePool {
     pub classes: Vec<String>,
     pub methods: Vec<String>,
     pub lines: Vec<u64>,
+    /// (class, method, line) triples that are known to resolve in the mapping under test
+    pub hits: Vec<(String, String, u64)>,
 }
 
 impl NamePool {
@@ -82,14 +84,23 @@ pub fn frame(pool: &NamePool) -> BoxedStrategy<FrameAst> {
     let methods = pool.methods_or_default();
     let mut lines: Vec<u64> = LINES.to_vec();
     lines.extend(pool.lines.iter().copied().take(40));
-    (
+    let free = (
         prop_oneof![8 => select(classes), 1 => ident()],
         prop_oneof![8 => select(methods), 1 => ident()],
         prop_oneof![3 => select(lines), 2 => 0u64..70, 1 => any::<u64>()],
         select(FILES),
     )
-        .prop_map(|(class, method, line, file)| FrameAst { class, method, line, file: Some(file.to_string()) })
+        .prop_map(|(class, method, line, file)| FrameAst { class, method, line, file: Some(file.to_string()) });
+    let hits: Vec<(String, String, u64)> = pool.hits.iter().filter(|(c, m, _)| frame_class_ok(c) && method_ok(m)).cloned().collect();
+    if hits.is_empty() {
+        free.boxed()
+    } else {
+        prop_oneof![
+            5 => free,
+            5 => (select(hits), select(FILES), 0u64..3).prop_map(|((class, method, line), file, d)| FrameAst { class, method, line: line + d, file: Some(file.to_string()) }),
+        ]
         .boxed()
+    }
 }
 
 /// Typed traces of the C17 domain: the top level has a throwable or at least one frame; causes always carry
